@@ -8,7 +8,7 @@ use core::hash::{Hash, Hasher};
 use core::num::NonZeroUsize;
 use core::ptr::{self, NonNull};
 
-use crate::hash::hash_map::{ExtractIf, Iter};
+use crate::hash::hash_map::Iter;
 use crate::hash::HashMap;
 use crate::rc::{RcBox, RcInnerPtr};
 
@@ -69,14 +69,6 @@ impl<T> Links<T> {
     #[inline]
     pub fn iter(&self) -> Iter<'_, Link<T>, usize> {
         self.registry.iter()
-    }
-
-    #[inline]
-    pub fn extract_if<F>(&mut self, f: F) -> ExtractIf<'_, Link<T>, usize, F>
-    where
-        F: FnMut(&Link<T>, &mut usize) -> bool,
-    {
-        self.registry.extract_if(f)
     }
 }
 
